@@ -607,7 +607,7 @@ class Builder(object):
                 hi_ = n if n is not None else 10
                 if lo_ == 0 and not self.prof['defval_empty_string']:
                     return None
-                s = draw(ctext('abcdefXYZ 0189.-_/', min_size=lo_, max_size=hi_))
+                s = draw(ctext('abcdefXYZ 0189.-_/\\\'\tnx', min_size=lo_, max_size=hi_))
                 return {'f': 'string', 't': '"%s"' % s, 's': s}
             if n is None:
                 n = draw(st.integers(0, 6))
